@@ -70,6 +70,15 @@ def roundtrip(ctx, rep):
         D = rng.choice([1, 2, 3])
         genome = G.random_stack(rng, rng.choice([2, 3, 5, 8, 12, 20]), D, rng.choice(G.OP_SUBSETS), term_prob=0.3,
                                 const_prob=rng.choice([0.0, 0.4]), int_prob=rng.choice([0.0, 0.2]), n_load=rng.choice([1, 2]))
+        if rng.random() < 0.12:
+            # integer literals of every size a command array can hold (int64), not only small ones
+            ints = [i for i, r in enumerate(genome) if r[0] == G.INTEGER]
+            if ints:
+                i = rng.choice(ints)
+                big = rng.choice([2 ** 31 - 1, 2 ** 31, 2 ** 32 + 5, 2 ** 35 + 1, -(2 ** 31) - 1, -(2 ** 33), 2 ** 40, 2 ** 53 + 1, 2 ** 62, 10 ** 10, 10 ** 15])
+                genome = [list(r) for r in genome]
+                genome[i] = [G.INTEGER, big, big]
+                rep.count("roundtrip", "integer literal beyond 32 bits")
         neg_ints = any(r[0] == G.INTEGER and r[1] < 0 for r in genome)
         ag = AGraph()
         ag.command_array = np.array(genome, dtype=int).reshape(-1, 3)
